@@ -61,11 +61,25 @@ fn check_state(n_items: u64, item_len: usize, max_file: u64, index_len: u64, hea
             other => return Err(format!("retrieve({i}) returned {:?} instead of the {item_len} bytes {i} as written", other.map(|o| o.map(|v| (v.len(), v.first().copied()))))),
         }
     }
-    // subsequent append + retrieval work on that prefix
-    f.append(number, &item(200, item_len)).map_err(|e| format!("append after re-open failed: {e}"))?;
+    // subsequent appends + retrievals work on that prefix: first a small item (fits into the repaired head file), then a full one
+    f.append(number, &item(199, 5)).map_err(|e| format!("append after re-open failed: {e}"))?;
     match f.retrieve(number) {
+        Ok(Some(d)) if d == item(199, 5) => {}
+        other => return Err(format!("retrieve of the 5-byte item appended after re-open returned {:?}", other.map(|o| o.map(|v| (v.len(), v.first().copied())))))
+    }
+    f.append(number + 1, &item(200, item_len)).map_err(|e| format!("second append after re-open failed: {e}"))?;
+    match f.retrieve(number + 1) {
         Ok(Some(d)) if d == item(200, item_len) => {}
         other => return Err(format!("retrieve of the item appended after re-open returned {:?}", other.map(|o| o.map(|v| v.len())))),
+    }
+    // and they survive a clean re-open
+    drop(f);
+    let mut f = FreezerFilesBuilder::new(dir.to_path_buf()).max_file_size(max_file).enable_compression(false).build().map_err(|e| format!("second re-open failed: {e}"))?;
+    f.preopen().map_err(|e| format!("preopen failed: {e}"))?;
+    if f.number() != number + 2 { return Err(format!("after appending 2 items to a repaired freezer and re-opening, number()={} instead of {}", f.number(), number + 2)); }
+    match f.retrieve(number) {
+        Ok(Some(d)) if d == item(199, 5) => {}
+        other => return Err(format!("after a clean re-open, retrieve of the 5-byte item returned {:?}", other.map(|o| o.map(|v| (v.len(), v.first().copied())))))
     }
     for i in 1..number {
         match f.retrieve(i) {
